@@ -112,7 +112,7 @@ def fam_struct(st, cls):
         ("tuple_out_" + st, prog([inp(S(st)), inp(S(st)), nd("Multiply", [1, 2]), nd("CreateTuple", [3, 1])]), 2, cls),
         ("named_" + st, prog([inp(S(st)), inp(S(st)), nd("Multiply", [1, 2]), nd("CreateNamedTuple", [3, 2], nm=["p", "q"]), nd("NamedTupleGet", [4], key="q"), nd("Multiply", [5, 3])]), 2, cls),
         ("vector_" + st, prog([inp(S(st)), inp(S(st)), nd("Multiply", [1, 2]), nd("CreateVector", [3, 1], t=S(st)), nd("VectorToArray", [4]), nd("Multiply", [5, 5])]), 2, cls),
-        ("vec_input_identity_" + st, prog([inp({"k": "v", "n": 2, "of": S(st)}), nd("NOP", [1])]), 1, cls),
+        ("vec_input_identity_" + st, prog([inp({"k": "v", "n": 2, "of": S(st)})]), 1, cls),
         ("vec_input_mul_" + st, prog([inp({"k": "v", "n": 2, "of": S(st)}), inp(S(st)), nd("VectorToArray", [1]), nd("Multiply", [3, 2])]), 2, cls),
         ("tuple_input_" + st, prog([inp({"k": "t", "el": [S(st), a2]}), inp(S(st)), nd("TupleGet", [1], i=1), nd("Multiply", [3, 2])]), 2, cls),
         ("a2v_" + st, prog([inp(a2), inp(a2), nd("Multiply", [1, 2]), nd("ArrayToVector", [3]), nd("VectorToArray", [4])]), 2, cls),
